@@ -93,8 +93,8 @@ func (e *miniEnv) eval(n *ref.Node) (mv, bool) {
 		e.unspec = true
 		return mvNull, false
 	case "id":
-		if n.Val == "rec" {
-			return mv{K: "ref", Ref: "rec"}, false
+		if n.Val == "rec" || n.Val == "recf" {
+			return mv{K: "ref", Ref: n.Val}, false
 		}
 		if _, isBuiltin := builtinArity[n.Val]; isBuiltin || n.Val == "true" || n.Val == "false" {
 			e.unspec = true
@@ -153,7 +153,7 @@ func (e *miniEnv) eval(n *ref.Node) (mv, bool) {
 		}
 		return out, false
 	case "call":
-		if n.Kids[0].Kind != "id" || n.Kids[0].Val != "rec" || n.Spread {
+		if n.Kids[0].Kind != "id" || (n.Kids[0].Val != "rec" && n.Kids[0].Val != "recf") || (n.Kids[0].Val == "recf" && !n.Spread) {
 			e.unspec = true
 			return mvNull, false
 		}
@@ -164,6 +164,14 @@ func (e *miniEnv) eval(n *ref.Node) (mv, bool) {
 				return mvNull, true
 			}
 			args = append(args, v)
+		}
+		if n.Spread { // rec(a, xs...): the last argument (evaluated last, like any argument) is spread over the tail
+			if len(args) == 0 || args[len(args)-1].K != "arr" {
+				e.unspec = true
+				return mvNull, false
+			}
+			last := args[len(args)-1]
+			args = append(args[:len(args)-1:len(args)-1], last.A...)
 		}
 		e.trace = append(e.trace, args)
 		return mvInt(int64(len(e.trace))), false
